@@ -1,6 +1,7 @@
 From Coq Require Import List Bool Arith NArith Permutation Sorted.
 From V.gen Require Consts.
-From V.C14 Require Import Model Proofs U256 GhostProofs.
+From Coq Require Import ZArith.
+From V.C14 Require Import Model Proofs U256 GhostProofs AddrModel AddrProofs.
 Import ListNotations.
 From V.C14 Require Import Properties.
 Check (C14_placement :
@@ -200,3 +201,37 @@ Check (C14_kad_gt_established :
 Check (C14_kad_is_table_history :
   forall local K h,
   k_table (kreach local K h) = reach local K (kflat local K (kad_empty (length local)) h)).
+Check (C14_addr_refines_table :
+  forall cap local K h,
+  r_table (rrun cap local K (rempty (length local)) h) = reach local K (map abs_op h)).
+Check (C14_addr_flag_is_store :
+  forall cap local K h, 1 <= cap ->
+  Forall2 (Forall2 (fun n st => n_addr n = nonempty st /\ length st <= cap /\ NoDup (map fst st)))
+          (r_table (rrun cap local K (rempty (length local)) h))
+          (r_stores (rrun cap local K (rempty (length local)) h))).
+Check (C14_addr_constants :
+  S_FAIL = (-100)%Z /\ S_OK = 100%Z /\ S_BONUS = 1%Z /\ CAP = 64 /\ REPORT = 32).
+Check (C14_addr_insert_never_empties :
+  forall cap s a sc v, 1 <= cap -> nonempty (fst (sinsert cap s a sc v)) = true).
+Check (C14_addr_reported :
+  forall s,
+  length (peer_addresses s) = Nat.min 32 (length s) /\
+  StronglySorted (fun x y => (snd y <= snd x)%Z) (peer_addresses s) /\
+  (forall x, In x (peer_addresses s) -> In x s) /\
+  (forall x y, In x (peer_addresses s) -> In y s -> ~ In y (peer_addresses s) -> (snd y <= snd x)%Z) /\
+  (NoDup (map fst s) -> NoDup (map fst (peer_addresses s)))).
+Check (C14_addr_dial_failure_marks :
+  forall cap s a z v, sfind a s = Some z ->
+  sinsert cap s a S_FAIL v = (sset a S_FAIL s, IUpdated) /\
+  sfind a (sset a S_FAIL s) = Some S_FAIL /\
+  forall b, b <> a -> sfind b (sset a S_FAIL s) = sfind b s).
+Check (C14_addr_readd_keeps_score :
+  forall cap s a z v, sfind a s = Some z -> sinsert cap s a 0%Z v = (s, IKept)).
+Check (C14_index_none_iff_same_key :
+  forall a b, length a = length b -> (ilog2 (kxor a b) = None <-> a = b)).
+Check (C14_index_top_bit :
+  forall x y a b, length a = length b -> xorb x y = true ->
+  ilog2 (kxor (x :: a) (y :: b)) = Some (length a)).
+Check (C14_no_distance_ties :
+  forall t a b, length t = length a -> length t = length b -> a <> b ->
+  kxor t a <> kxor t b /\ (klt (kxor t a) (kxor t b) = true \/ klt (kxor t b) (kxor t a) = true)).
